@@ -14,7 +14,7 @@ import io
 import itertools
 
 PROP = 'C16'
-TARGETS = ['T16a', 'T16b', 'T16c', 'T16d', 'T16e', 'T16f', 'T16g', 'T16h', 'T16i', 'T16j', 'T16k', 'T16l', 'T15e', 'T15c']
+TARGETS = ['T16a', 'T16b', 'T16c', 'T16d', 'T16e', 'T16f', 'T16g', 'T16h', 'T16i', 'T16j', 'T16k', 'T16l', 'T16m', 'T15e', 'T15c']
 LEAN_MODULES = ['HdVerif.Props.C16']
 MODEL_MODULES = ['HdVerif.Model.SRReport']
 NAMESPACE = 'HdVerif.C16'
